@@ -19,6 +19,7 @@ EXPLANATION = (
     "that the percentages are round(100*part/kernel_time, 2), that kernel classification is the comm->memory->compute->other chain over the "
     "spec regular languages, and that the facade forwards its argument. Each slot is a necessary condition (witness inputs in DESIGN.md 3/C04); "
     "numeric results and pandas' own semantics are not decided."
+    " Later additions: per-path decision of compute_time, effect rules (no state across calls, caller's Trace untouched, independent per-rank loops, facade stateless), bounded validation of the interval-union template."
 )
 BA = "hta.analyzers.breakdown_analysis"
 
